@@ -8,7 +8,7 @@ import ast
 import re
 
 from .. import regexlang as rx
-from ..astutil import call_attr, calls_in, guard_facts, parent_map, unparse, walk_local, text_facts
+from ..astutil import call_attr, calls_in, guard_facts, norm_facts, parent_map, unparse, walk_local, text_facts
 from ..cfg import CFG
 from ..report import Finding, Report
 from ..rx_extract import all_compiles
@@ -585,6 +585,33 @@ def check_tuple_index(idx: Index, rep: Report) -> None:
                 r.ok(inst, f"{mi.relpath}:{sub.lineno} `{ix}` < size tested before `{unparse(sub)}`")
             else:
                 r.fail(inst, Finding("C07.R5", g.fq, "index-upper-bound", f"`{unparse(sub)}` is reached with `{ix}` known only to satisfy {sorted('<= ' + u for u in upper) or 'nothing'}: `%v#N` with N equal to (or above) the number of results raises IndexError instead of a diagnostic", f"{mi.relpath}:{sub.lineno}"))
+    # a constant position of a result tuple (`values[0]`): the tuple may be empty (`%a:0 = ...` binds `a` to ()), so the
+    # access needs the same evidence - expected count on today's tree: zero such accesses
+    for g in raw_funcs(mi):
+        if g.cls is None or g.cls.name != "Parser":
+            continue
+        gcfg = None
+        for sub in walk_local(g.node):
+            if not (isinstance(sub, ast.Subscript) and isinstance(sub.ctx, ast.Load) and isinstance(sub.slice, ast.Constant) and isinstance(sub.slice.value, int)):
+                continue
+            if gcfg is None:
+                gcfg = CFG(g.node)
+            try:
+                at = gcfg.node_of(sub)
+                base = _rt(gcfg, sub.value, at)
+            except Exception:
+                continue
+            if not re.fullmatch(r"self\.ssa_values(\[.+\]|\.get\(.+\))", base):
+                continue
+            k_ = sub.slice.value
+            bt = unparse(sub.value)
+            facts = {(t_, p_) for t_, p_ in norm_facts(text_facts(g.node, sub))}
+            sized = any((p_ and re.fullmatch(rf"len\((?:{re.escape(bt)}|{re.escape(base)})\) (>|>=|!=) \d+|\d+ < len\((?:{re.escape(bt)}|{re.escape(base)})\)", t_)) or (k_ in (0, -1) and p_ and t_ in (bt, base)) for t_, p_ in facts)
+            inst = f"{g.fq}:{unparse(sub)[:40]}"
+            if sized:
+                r.ok(inst, f"{mi.relpath}:{sub.lineno} `{unparse(sub)}` under a size test")
+            else:
+                r.fail(inst, Finding("C07.R5", g.fq, f"constant-index-unbounded:{k_}", f"`{unparse(sub)}` takes element {k_} of the result tuple bound to an SSA name without any test of its size: `%a:0 = ...` binds the name to an empty tuple, and a later `%a` escapes with IndexError instead of the 'tuple index out of bounds' diagnostic", f"{mi.relpath}:{sub.lineno}"))
     if n_sub < 2:
         raise AnalysisError(f"{mi.relpath}: only {n_sub} tuple-element accesses of SSA value tuples found (expected resolve_operand, parse_optional_operand, _register_ssa_definition)")
 
